@@ -342,3 +342,64 @@ Print Assumptions model_is_code_py_native.
 Theorem week_frac_small_covers : forall m, week_frac_free m -> week_frac_small m.
 Proof. exact week_frac_free_small. Qed.
 Print Assumptions week_frac_small_covers.
+
+(* ------------------------------------------------------------ a fraction is admitted on the LAST component only (Proofs/C13AfterFrac.v)
+   "Fractional" is a property of the TEXT of a component (a '.' or ',' followed by digits), not of its value: `P1.0D…`, `PT2,000H…` carry
+   a fraction like `P1.5D…` does (ds, fs: non-empty ASCII digit strings of any length, leading / trailing / only zeros included; sep '.' or ',';
+   c any non-digit).  Together with dur_frac_ym_rejected (a fraction on Y or on the date M, whatever follows) this is the rejection clause
+   of the property for fractions, for every digit string. *)
+From PV Require Import Proofs.C13AfterFrac.
+
+(* the state machine of the compiled parser's loop: once a component carried a fraction (last_had_fraction = true) the loop accepts
+   nothing more than a lone trailing 'T', from every state and with every remaining input *)
+Theorem dur_rs_after_fraction_only_T : forall f d gt l,
+  rs_loop (S (S f)) d gt true l = Raise E_ValueError \/ (gt = false /\ l = [c_T]).
+Proof. exact rs_loop_after_fraction. Qed.
+Print Assumptions dur_rs_after_fraction_only_T.
+
+(* compiled parser, P <integer date tokens> <ds sep fs c> r: rejected unless r is empty or the lone 'T' *)
+Theorem dur_frac_nonfinal_rejected_rs_date : forall dts ds sep fs c r,
+  Forall wf_tok dts -> digits ds -> sepc sep -> digits fs -> is_digit c = false -> r <> [] -> r <> [c_T] ->
+  rs_dur (c_P :: render_toks dts ++ ds ++ sep :: fs ++ c :: r) = Raise E_ValueError /\
+  rs_dur_c (c_P :: render_toks dts ++ ds ++ sep :: fs ++ c :: r) = Raise E_ValueError.
+Proof. exact rs_frac_nonfinal_date. Qed.
+Print Assumptions dur_frac_nonfinal_rejected_rs_date.
+
+(* compiled parser, P <integer date tokens> T <integer time tokens> <ds sep fs c> r: rejected unless r is empty *)
+Theorem dur_frac_nonfinal_rejected_rs_time : forall dts tts ds sep fs c r,
+  Forall wf_tok dts -> Forall wf_tok tts -> digits ds -> sepc sep -> digits fs -> is_digit c = false -> r <> [] ->
+  rs_dur (c_P :: render_toks dts ++ c_T :: render_toks tts ++ ds ++ sep :: fs ++ c :: r) = Raise E_ValueError /\
+  rs_dur_c (c_P :: render_toks dts ++ c_T :: render_toks tts ++ ds ++ sep :: fs ++ c :: r) = Raise E_ValueError.
+Proof. exact rs_frac_nonfinal_time. Qed.
+Print Assumptions dur_frac_nonfinal_rejected_rs_time.
+
+Example dur_frac_nonfinal_hyps :
+  Forall wf_tok [([49], c_Y)] /\ digits [50] /\ sepc c_dot /\ digits [48] /\ is_digit c_D = false /\
+  [c_T; 49; 50; c_H] <> [] /\ [c_T; 49; 50; c_H] <> [c_T].
+Proof. exact frac_nonfinal_hyps. Qed.
+
+(* pure Python, every string: if whatever the regular expression matches has a fractional days / hours / minutes group in front of a later
+   time group (after_frac), the string is rejected; py_args never returns on such a match record *)
+Theorem dur_frac_nonfinal_rejected_py : forall s, (forall m, match_duration s = Some m -> after_frac m = true) ->
+  py_dur_c s = Raise E_ValueError.
+Proof. exact py_frac_nonfinal. Qed.
+Print Assumptions dur_frac_nonfinal_rejected_py.
+
+Theorem dur_frac_nonfinal_py_args : forall m a, g_hms m = true -> py_args m = Ok a -> after_frac m = false.
+Proof. exact py_args_ok_not_after_frac. Qed.
+Print Assumptions dur_frac_nonfinal_py_args.
+
+Example dur_frac_nonfinal_py_hyps :
+  (exists m, match_duration s_pt1_0h30m = Some m /\ after_frac m = true) /\
+  (exists m, match_duration s_p1_0dt12h = Some m /\ after_frac m = true).
+Proof. exact after_frac_witness. Qed.
+
+(* the degenerate fractions themselves, evaluated in the kernel on the three models (pure Python, compiled + glue, compiled raw):
+   P1.0Y  P2,00M  P1Y2.0M3D  P1.000000000Y  PT1.0H30M  P1.0DT12H  PT1,00M30S  PT1.0H1.5M  P0.0W2D  are all rejected with a ValueError,
+   while P1.0D and PT1,000S (the fraction on the last component) are 1 day and 1 second *)
+Theorem dur_degenerate_fraction_witnesses :
+  forallb (fun s => is_ve (py_dur_c s) && is_ve (rs_dur_c s) && is_ve (rs_raw s)) degenerate_rejected = true /\
+  py_dur_c s_p1_0d = Ok (0, 0, 1, 0, 0) /\ rs_dur_c s_p1_0d = Ok (0, 0, 1, 0, 0) /\
+  py_dur_c s_pt1_000s = Ok (0, 0, 0, 1, 0) /\ rs_dur_c s_pt1_000s = Ok (0, 0, 0, 1, 0).
+Proof. exact (conj degenerate_rejected_all degenerate_final_ok). Qed.
+Print Assumptions dur_degenerate_fraction_witnesses.
